@@ -1417,7 +1417,136 @@ def gen_disk():
     return o
 
 
-GENERATORS = [gen_text, gen_tape, gen_basic, gen_disk]
+
+def gen_cli():
+    o = Out("GenCli", header="Require Import CliTypes.")
+
+    def parser_spec(path, qual):
+        fn = find_scope(module(path), qual)
+        groups = {}  # variable name -> required?
+        opts = []
+        positionals = []
+        allow_abbrev = None
+        for c in nodes(fn, ast.Call):
+            f = c.func
+            if isinstance(f, ast.Name) and f.id == "ArgumentParser":
+                for k in c.keywords:
+                    if k.arg == "allow_abbrev":
+                        allow_abbrev = bool(k.value.value)
+        for a in nodes(fn, ast.Assign):
+            v = a.value
+            if isinstance(v, ast.Call) and isinstance(v.func, ast.Attribute) and v.func.attr == "add_mutually_exclusive_group":
+                req = any(k.arg == "required" and isinstance(k.value, ast.Constant) and k.value.value is True for k in v.keywords)
+                groups[a.targets[0].id] = req
+        if allow_abbrev is None:
+            raise TieError("allow_abbrev not set explicitly")
+        for c in nodes(fn, ast.Call):
+            f = c.func
+            if not (isinstance(f, ast.Attribute) and f.attr == "add_argument"):
+                continue
+            owner = ast.unparse(f.value)
+            names = [const_str(x) for x in c.args]
+            kw = {k.arg: k.value for k in c.keywords}
+            if names and names[0].startswith("-"):
+                action = const_str(kw["action"]) if "action" in kw else "store"
+                dest = const_str(kw["dest"]) if "dest" in kw else next(n for n in names if n.startswith("--")).lstrip("-").replace("-", "_") if any(n.startswith("--") for n in names) else names[0].lstrip("-")
+                if action == "store_const":
+                    kind = f"OConst {zlist(str_points(dest))} {zlist(str_points(const_str(kw['const'])))}"
+                elif action == "store_true":
+                    kind = f"OTrue {zlist(str_points(dest))}"
+                elif action == "store":
+                    is_int = "type" in kw and ast.unparse(kw["type"]) == "int"
+                    kind = f"OStore {zlist(str_points(dest))} {'true' if is_int else 'false'}"
+                else:
+                    raise TieError(f"action {action}")
+                ingroup = owner in groups
+                opts.append("mkOpt [" + "; ".join(zlist(str_points(n)) for n in names) + f"] ({kind}) {'true' if ingroup else 'false'}")
+            else:
+                nargs = const_str(kw["nargs"]) if "nargs" in kw else ""
+                if nargs not in ("", "*"):
+                    raise TieError(f"nargs {nargs}")
+                positionals.append(f"({zlist(str_points(names[0]))}, {'true' if nargs == '*' else 'false'})")
+        req = "true" if any(groups.values()) else "false"
+        if len(groups) > 1:
+            raise TieError("several groups")
+        return f"mkCli [{'; '.join(opts)}] [{'; '.join(positionals)}] {'true' if allow_abbrev else 'false'} {req}"
+
+    for g, path, qual in (("tar_cli", "moto_tar/tar.py", "TapeArchiveCli.createArgParser"), ("disk_cli", "moto_lib/fs_disk/cli.py", "DiskArchiveCli.createArgParser"),
+                          ("nl_cli", "moto_nl/nl.py", "createArgParser"), ("prettier_cli", "moto_prettier/prettier.py", "createArgParser"),
+                          ("lst2bas_cli", "moto_lst2bas/lst2bas.py", "createArgParser"), ("bas2lst_cli", "moto_bas2lst/bas2lst.py", "createArgParser")):
+        o.item(g, "clispec", (lambda path=path, qual=qual: parser_spec(path, qual)))
+
+    # action -> worker tables and the extension gate of the disk CLI
+    def table_keys(path, qual, attr):
+        d = assign_value(find_scope(module(path), qual), attr)
+        return "[" + "; ".join(zlist(str_points(const_str(k))) for k in d.keys) + "]"
+
+    o.item("tar_actions", "list (list Z)", lambda: table_keys("moto_tar/tar.py", "TapeArchiveCli.__init__", "self._workers"))
+    o.item("disk_actions", "list (list Z)", lambda: table_keys("moto_lib/fs_disk/cli.py", "DiskArchiveCli.__init__", "self._workers"))
+
+    def gate_before_manager():
+        fn = find_scope(module("moto_lib/fs_disk/cli.py"), "DiskArchiveCli.run")
+        stmts = [ast.unparse(x) for x in fn.body]
+        gi = next(i for i, x in enumerate(stmts) if "archiveExtension != self._archiveExtension" in x)
+        mi = next(i for i, x in enumerate(stmts) if "self.createImageManager(args)" in x)
+        if not gi < mi:
+            raise TieError("the extension gate does not precede the image manager")
+        g = fn.body[gi]
+        if not (isinstance(g.body[0], ast.Raise)):
+            raise TieError("gate does not raise")
+        return "true"
+
+    o.item("disk_gate_before_manager", "bool", gate_before_manager)
+
+    def scripts():
+        import re as _re
+        txt = open(os.path.join(REPO, "pyproject.toml")).read()
+        m = _re.search(r"\[project\.scripts\](.*?)(\n\[|\Z)", txt, _re.S)
+        rows = []
+        for line in m.group(1).splitlines():
+            mm = _re.match(r'\s*([\w-]+)\s*=\s*"([\w.]+):(\w+)"', line)
+            if mm:
+                rows.append((mm.group(1), mm.group(2), mm.group(3)))
+        return rows
+
+    def resolves(mod, func):
+        """static resolution: the module file exists, defines func, and every package __init__ on the way
+        only has relative imports of modules that exist"""
+        parts = mod.split(".")
+        base = os.path.join(SRC, *parts[:-1])
+        f = os.path.join(base, parts[-1] + ".py")
+        if not os.path.exists(f):
+            return False
+        t = ast.parse(open(f).read())
+        if not any(isinstance(n, ast.FunctionDef) and n.name == func for n in t.body):
+            return False
+        for i in range(1, len(parts)):
+            init = os.path.join(SRC, *parts[:i], "__init__.py")
+            if not os.path.exists(init):
+                return False
+            for n in ast.parse(open(init).read()).body:
+                if isinstance(n, ast.ImportFrom) and n.level == 1 and n.module:
+                    tgt = os.path.join(SRC, *parts[:i], *n.module.split("."))
+                    if not (os.path.exists(tgt + ".py") or os.path.isdir(tgt)):
+                        return False
+        return True
+
+    def scripts_table():
+        return "[" + "; ".join(f"({zlist(str_points(n))}, {'true' if resolves(m, f) else 'false'})" for n, m, f in scripts()) + "]"
+
+    o.item("declared_scripts", "list (list Z * bool)", scripts_table)
+
+    def modules_table():
+        rows = []
+        for tool in ("moto_tar", "moto_sdar", "moto_fdar", "moto_nl", "moto_prettier", "moto_bas2lst", "moto_lst2bas"):
+            rows.append(f"({zlist(str_points(tool))}, {'true' if resolves(tool + '.__main__', 'main') else 'false'})")
+        return "[" + "; ".join(rows) + "]"
+
+    o.item("documented_modules", "list (list Z * bool)", modules_table)
+    return o
+
+
+GENERATORS = [gen_text, gen_tape, gen_basic, gen_disk, gen_cli]
 
 
 def main():
